@@ -224,6 +224,10 @@ func (rt *runtime) panicRangeError(argumentList ...interface{}) *exception {
 func catchPanic(function func()) (err error) {
 	defer func() {
 		if caught := recover(); caught != nil {
+			if interrupt, ok := caught.(interruptPanic); ok {
+				// Hand the caller the value its Interrupt function panicked with
+				panic(interrupt.value)
+			}
 			if excep, ok := caught.(*exception); ok {
 				caught = excep.eject()
 			}
